@@ -115,7 +115,7 @@ _FOCUS = {
 def cases(ctx: Ctx) -> list[dict]:
     q = ctx.quick
     # simulations: the families of the full alphabet, and the families of the closure / helper / underscore alphabets
-    nsim, per, nsim_new, per_new = (1, 200, 1, 210) if q else (3, 1000, 1, 1300)
+    nsim, per, nsim_new, per_new = (1, 200, 1, 210) if q else (3, 1000, 1, 1000)
     with ThreadPoolExecutor(max_workers=nsim + nsim_new + 1) as ex:
         f_exh = ex.submit(ctx.behaviours, "MC_PyMiniData",
                           "MC_PyMiniData.cfg" if q else "MC_PyMiniData_thorough.cfg", timeout=2400)
@@ -137,7 +137,7 @@ def cases(ctx: Ctx) -> list[dict]:
     # the sample of a themed family are programs that exercise its feature: the returned value depends (per the spec)
     # on an inner function / a class-level or underscore attribute / a branching helper; an attribute is stored
     # through one variable and loaded through the other
-    quota = {"full": 50, "attr": 80, "uattr": 50, "clo": 75} if q else {"uattr": 800, "clo": 1000, "hlp": 600}
+    quota = {"full": 50, "attr": 80, "uattr": 50, "clo": 75} if q else {"uattr": 600, "clo": 800, "hlp": 500}
     focus = {a: (2 * n) // 3 for a, n in quota.items() if a in _FOCUS}
     picked, taken = [], set()
     for want_focus in (True, False):
@@ -244,8 +244,8 @@ def run(ctx: Ctx) -> None:
                 "two/three/four-statement programs (full, attribute, underscore-attribute, closure alphabets; two thirds "
                 "of the closure / underscore sample depend on the feature per the spec) + ~190 simulated programs over "
                 "all skeletons with the full alphabet + ~200 with the closure / helper / underscore alphabets; thorough: "
-                "all ~3500 enumerated programs of the core, attribute, container, global alphabets, 2400 sampled from "
-                "the ~10000 of the underscore, closure, helper alphabets, ~2900 + ~1200 simulated. "
+                "all ~4000 enumerated programs of the core, attribute, container, global alphabets, 1900 sampled from "
+                "the ~10000 of the underscore, closure, helper alphabets, ~2900 + ~950 simulated. "
                 "non-trivial = distinct cases whose spec slice has >= 3 lines of f")
     ctx.assumptions = [
         "executed = lines executed by the import or by the call (sys.monitoring LINE events of all code objects of the "
